@@ -1521,6 +1521,21 @@ func streamHook(rep *Report, tier string, seed uint64) {
 										orc = append(orc, "C17:hook output present under Unsafe()")
 									}
 								}
+								if hk == 2 && !isSF && (pos == "top" || pos == "slice") {
+									// the text before and after the report is intact, and the report is all there is: what the hook
+									// wrote before panicking, then one %!verb(PANIC=…) — or <nil> for a nil receiver — and nothing more
+									rep := "%!" + string(verb) + "(PANIC=SafeFormatter method: ‹hookboom›)"
+									if name == "nilrecv" {
+										rep = "<nil>"
+									}
+									want := "A:HK<" + rep + ":B"
+									if pos == "slice" {
+										want = "A:[HK<" + rep + "]:B"
+									}
+									if string(out) != want && !strings.ContainsAny(d, "#+0123456789") {
+										orc = append(orc, fmt.Sprintf("C11:a panic in the error hook is not reported in place and once: got %q want %q", out, want))
+									}
+								}
 								if hk == 2 && !isSF && pos != "unsafe" && pos != "ufield" && name != "nilrecv" {
 									if !bytes.Contains(out, []byte("PANIC=")) || !bytes.HasPrefix(out, []byte("A:")) || !bytes.HasSuffix(out, []byte(":B")) {
 										orc = append(orc, fmt.Sprintf("C17:panic in hook not contained in place: %q", out))
